@@ -52,7 +52,7 @@ def compose_models(models_map: Dict[str, ModelMeta]) -> ModelsStructureType:
                 path_injections[struct["model"]] = parent["model"]
             else:
                 # Model is using by only one model
-                parent = structure_hash_table[next(iter(parents))]
+                parent = structure_hash_table[min(parents)]
                 struct = structure_hash_table[key]
                 parent["nested"].append(struct)
 
